@@ -27,8 +27,9 @@
    contains the revert that discarded them (history coverage for "discarded writes resurface").
    One action per public call: `new_perspective`, `insert`, `delete`, `add_command`,
    `checkpoint`, `revert`, `new_storage`, `write`, `get_linear_perspective`,
-   `get_fact_perspective`, `write_facts`, `new_merge_perspective`.  `write_facts_with_prior` compacts the chain into a
-   single tombstone-free index when the prior's depth exceeds MaxDepth-1.
+   `get_fact_perspective`, `write_facts`, `new_merge_perspective`.  `write_facts_with_prior`
+   compacts the chain into a single tombstone-free index when the prior's depth exceeds
+   MaxDepth-1.
 
    TLC checks that the layered model refines the flat map at every committed index, at every
    location reachable by mid-segment reconstruction and in the open perspectives (C12), and
